@@ -354,17 +354,12 @@ pub uninterp spec fn subs_validated(ra: RoomAuthorisations, subs: HashMap<String
 pub uninterp spec fn room_change_needs_admin(subs: HashMap<String, Vec<InsertEntity>>, room: Room, key: Vec<u8>) -> bool;
 
 impl RoomAuthorisations {
-    // E8 cut (a whole helper function): validate_sub_nodes is
-    //   `for entry in &mut entity_to_mutate.sub_nodes { for insert_entity in entry.1 { validate_entity_mutation(..)?; rooms.append(..) } }`
-    // (HashMap IterMut has no Verus model).  ASSUMED: it calls validate_entity_mutation on every sub-entity, propagates the first
-    // error, and touches only `sub_nodes` of the entity and `rooms`.
+    // E8 cut: the loop of validate_sub_nodes over `&mut entity_to_mutate.sub_nodes` (HashMap IterMut has no Verus model).  The BODY of
+    // the loop is verified (validate_sub_body, rule E14: every sub-entity of the field goes through validate_entity_mutation, none is
+    // skipped, the first refusal is propagated).  ASSUMED: std's IterMut visits every entry once and the loop runs that body on each.
     #[verifier::external_body]
-    pub fn validate_sub_nodes(&self, entity_to_mutate: &mut InsertEntity, verifying_key: &Vec<u8>, rooms: &mut Vec<Room>) -> (r: Result<()>)
-        ensures
-            r is Ok ==> subs_validated(*self, old(entity_to_mutate).sub_nodes, *verifying_key),
-            final(entity_to_mutate).node_to_mutate == old(entity_to_mutate).node_to_mutate,
-            final(entity_to_mutate).edge_deletions == old(entity_to_mutate).edge_deletions,
-            final(entity_to_mutate).edge_deletions_log == old(entity_to_mutate).edge_deletions_log,
+    pub fn cut_validate_sub_nodes(&self, sub_nodes: &mut HashMap<String, Vec<InsertEntity>>, verifying_key: &Vec<u8>, rooms: &mut Vec<Room>) -> (r: Result<()>)
+        ensures r is Ok ==> subs_validated(*self, *old(sub_nodes), *verifying_key),
     { unimplemented!() }
     // E8 cut: the loop of validate_room_mutation over `&mut insert_entity.sub_nodes` (admin entries, groups; HashMap IterMut).
     // The BODY of the loop is verified (room_sub_body, rule E14).  ASSUMED: std's IterMut visits every entry once and the loop runs that
@@ -378,6 +373,44 @@ impl RoomAuthorisations {
             r is Ok && !r->Ok_0 ==> admin_part_same(*old(room), *final(room)),
     { unimplemented!() }
 }
+
+/// what the validation of ONE nested entity establishes (it is the contract of validate_entity_mutation, seen from the loop over a field)
+pub open spec fn sub_entity_validated(ra: RoomAuthorisations, e: InsertEntity, key: Vec<u8>) -> bool {
+    !is_auth_entity(e.node_to_mutate.entity@)
+    && (e.node_to_mutate.entity@ != system_entities::ROOM_ENT@ ==> spec_local_row_ok(ra, e.node_to_mutate, key) && subs_validated(ra, e.sub_nodes, key))
+}
+//@ extract src/database/authorisation_service.rs :: impl RoomAuthorisations / fn validate_sub_nodes
+//@ result r
+//@ cut "for entry in &mut entity_to_mutate.sub_nodes" => "self.cut_validate_sub_nodes(&mut entity_to_mutate.sub_nodes, verifying_key, rooms)?;" body-verified
+//@ spec
+        requires rooms_wf(*self),
+        ensures
+            // [nested_entities_all_validated] on success every nested entity went through validate_entity_mutation (composition of the verified loop body over the fields: assumed of IterMut)
+            r is Ok ==> subs_validated(*self, old(entity_to_mutate).sub_nodes, *verifying_key),
+            final(entity_to_mutate).node_to_mutate == old(entity_to_mutate).node_to_mutate,
+            final(entity_to_mutate).edge_deletions == old(entity_to_mutate).edge_deletions,
+            final(entity_to_mutate).edge_deletions_log == old(entity_to_mutate).edge_deletions_log,
+//@ end
+
+//@ extract src/database/authorisation_service.rs :: impl RoomAuthorisations / fn validate_sub_nodes as RoomAuthorisations::validate_sub_body
+//@ lift-loop "for entry in &mut entity_to_mutate.sub_nodes" :: fn validate_sub_body(&self, entry: (&String, &mut Vec<InsertEntity>), verifying_key: &Vec<u8>, rooms: &mut Vec<Room>) -> (r: Result<()>) tail "Ok(())"
+//@ attr #[verifier::loop_isolation(false)]
+//@ attr #[verifier::exec_allows_no_decreases_clause]
+//@ rewrite E17 "(?<=for insert_entity in )entry\.1(?= \{)" => "entry.1.iter_mut()" x1
+//@ insert body-start
+        let ghost l0 = entry.1@;
+//@ loop "for insert_entity in" iter it
+                invariant
+                    it.seq().len() == l0.len(),
+                    forall|i: int| 0 <= i < it.seq().len() ==> *(#[trigger] it.seq()[i]) == l0[i],
+                    // [nested_entities_validated_so_far]{C01,C12} every nested entity seen so far - whether or not it carries a row of its own - went through the validation
+                    forall|i: int| 0 <= i < it.index@ ==> sub_entity_validated(*self, #[trigger] l0[i], *verifying_key),
+//@ spec
+        requires rooms_wf(*self),
+        ensures
+            // [no_nested_entity_skips_the_validation]{C01,C12} a field of nested entities is accepted only if EVERY entity under it passed validate_entity_mutation: one that is a pure reference (no row of its own) included, because the entities nested under IT are reached through it
+            r is Ok ==> forall|i: int| 0 <= i < old(entry.1)@.len() ==> sub_entity_validated(*self, #[trigger] old(entry.1)@[i], *verifying_key),
+//@ end
 
 //@ extract src/database/authorisation_service.rs :: impl RoomAuthorisations / fn validate_entity_mutation
 //@ result r
